@@ -2,7 +2,7 @@
 (* Alphabets of the exhaustive C05 design model (generated once; see notes/C05.md). *)
 EXTENDS Thermdat
 
-\* names: A, H2, END, XENDY, THERMO, 1A, 100, LEGEND(S)_15chr
+\* names: A, H2, END, XENDY, THERMO, 1A, 100, LEGEND(S)_15chr, ENDO-1,2 (keyword prefix, hyphen, comma), thermo(s) (lower case, parentheses)
 NameSeq == <<<<65>>,
             <<72, 50>>,
             <<69, 78, 68>>,
@@ -10,14 +10,18 @@ NameSeq == <<<<65>>,
             <<84, 72, 69, 82, 77, 79>>,
             <<49, 65>>,
             <<49, 48, 48>>,
-            <<76, 69, 71, 69, 78, 68, 40, 83, 41, 95, 49, 53, 99, 104, 114>>>>
-\* composition: H2; C12 H0 O1; Pt123; H2 C12 Pt123 O1; Pt12 Cl999 C1 Na100; H100 Ni5
+            <<76, 69, 71, 69, 78, 68, 40, 83, 41, 95, 49, 53, 99, 104, 114>>,
+            <<69, 78, 68, 79, 45, 49, 44, 50>>,
+            <<116, 104, 101, 114, 109, 111, 40, 115, 41>>>>
+\* composition: H2; C12 H0 O1; Pt123; H2 C12 Pt123 O1; Pt12 Cl999 C1 Na100; H100 Ni5; Pt0 H2 O1 (zero first); Ar0 C1 H3 He0 N1 O2 (six entries, non-zero after the fourth)
 ElemSeq == <<<<<<<<72>>, 2>>>>,
             <<<<<<67>>, 12>>, <<<<72>>, 0>>, <<<<79>>, 1>>>>,
             <<<<<<80, 116>>, 123>>>>,
             <<<<<<72>>, 2>>, <<<<67>>, 12>>, <<<<80, 116>>, 123>>, <<<<79>>, 1>>>>,
             <<<<<<80, 116>>, 12>>, <<<<67, 108>>, 999>>, <<<<67>>, 1>>, <<<<78, 97>>, 100>>>>,
-            <<<<<<72>>, 100>>, <<<<78, 105>>, 5>>>>>>
+            <<<<<<72>>, 100>>, <<<<78, 105>>, 5>>>>,
+            <<<<<<80, 116>>, 0>>, <<<<72>>, 2>>, <<<<79>>, 1>>>>,
+            <<<<<<65, 114>>, 0>>, <<<<67>>, 1>>, <<<<72>>, 3>>, <<<<72, 101>>, 0>>, <<<<78>>, 1>>, <<<<79>>, 2>>>>>>
 PhaseSeq == <<71, 83>>                      \* G, S
 \* notes: none, "ab END c" (blanks and a keyword inside columns 17-24)
 NoteSeq == <<<<>>, <<97, 98, 32, 69, 78, 68, 32, 99>>>>
@@ -35,7 +39,7 @@ Mk(n, e, p, no, c, t) == [name |-> NameSeq[n], notes |-> NoteSeq[no], elems |-> 
 Singles == {<<Mk(n, e, p, no, c, t)>> : n \in 1..Len(NameSeq), e \in 1..Len(ElemSeq), p \in 1..2,
                                         no \in 1..2, c \in 1..3, t \in 1..2}
 \* in lists of 2..3 species the other fields follow the name index (all values still occur)
-SpOf(j) == Mk(j, (j % 6) + 1, (j % 2) + 1, ((j \div 2) % 2) + 1, (j % 3) + 1, (j % 2) + 1)
+SpOf(j) == Mk(j, (j % Len(ElemSeq)) + 1, (j % 2) + 1, ((j \div 2) % 2) + 1, (j % 3) + 1, (j % 2) + 1)
 Pairs == {<<SpOf(a), SpOf(b)>> : a, b \in 1..Len(NameSeq)}
 Triples == {<<SpOf(a), SpOf(b), SpOf(c)>> : a, b, c \in 1..Len(NameSeq)}
 MCLists == Singles \cup Pairs \cup Triples
